@@ -142,6 +142,17 @@ CHECKS = {
             'The SCO worker is not a thread (queued requests are processed when the history says drain); at most 10 queued '
             'requests between drains.',
             'DESIGN.md section 2 C09'),
+    'C08': ('hypothesis generated eventing histories (real SOAP requests over the loop-back transport, virtual clock, '
+            'stepped housekeeping, injected delivery faults) judged by a reference model of subscription liveness',
+            'For every report a provider transaction emits (observed on the manager and on the wire) the set of subscribers '
+            'that were sent the notification must equal the set the model holds live and matching: accepted, not expired '
+            '(virtual monotonic clock), not unsubscribed, below the delivery-failure limit, action in filter. Granted and '
+            'reported expiry values are compared with the model, unknown identifiers must fault and leave the scanned '
+            'subscription table unchanged, and on shutdown every live subscription must get exactly one SubscriptionEnd at '
+            'EndTo or else NotifyTo. Four manager variants (sync/async x path/reference-parameter dispatch).',
+            'subscriptionmgr_base.time is a virtual clock; housekeeping threads run one iteration per tick; delivery '
+            'faults are HTTP status, refused connection and timeout injected at the loop-back transport.',
+            'DESIGN.md section 2 C08'),
 }
 
 NOT_YET = {}
